@@ -200,7 +200,7 @@ def closure_specs(tier):
         if tier != "thorough" and r["wd_depth"] not in (1, 2):
             continue
         replay = "closure_rooted" if r["rooted"] else ("closure_parent" if r["prefix"].startswith("..") else "closure")
-        out.append({"name": "walk::glob::verif_kani::closure::step_" + r["name"], "props": ["C02"], "tier": "quick",
+        out.append({"name": "walk::glob::verif_kani::closure::step_" + r["name"], "props": ["C02", "C13"], "tier": "quick",
                     "functions": ["GlobWalker::walk_with_behavior (filter_map_tree closure)", "walk::glob::root_relative_paths",
                                   "WalkTree::with_pivot_and_behavior", "WalkTree::next", "WalkTree::cancel_walk_tree",
                                   "FilterMapTree::feed", "Filtrate::filter_tree", "Filtrate::filter_node"],
@@ -217,6 +217,9 @@ def for_property(pid, tier):
     out = []
     if pid == "C02":
         out += closure_specs(tier)
+    if pid == "C13":
+        # the glob walker's own tree discard: the rooted and the plain family
+        out += [c for c in closure_specs(tier) if c["row"]["family"] in ("rooted_k3", "plain_k2")]
     for h in HARNESSES:
         if pid in h["props"] and (tier == "thorough" or h["tier"] == "quick"):
             out.append(h)
